@@ -9,6 +9,11 @@ COMMON_NOTE = ("Trusted: Coq 8.16.1 kernel and its VM (vm_compute; no native_com
                "(virtual clock, scheduler, canonicalisation, case printer). ")
 # id -> (text, note, technique, design_ref)
 CLAIMED = {
+ "C11": ("Theorems for every history: the store never exceeds its capacity; its key order is exactly the recency list obtained by replaying the "
+         "history's Touch/Drop/Evict trace; whenever an Evict fires the evicted key carries the oldest touch stamp and at least `size` other distinct "
+         "keys carry newer ones; a purge pass keeps the survivors' order. The model's results and raw key order are compared with the real Memory after every command.",
+         "The oracle's notion of use is observational (command names the key and the key is present afterwards); set_raw excluded; values immutable.",
+         "Coq proof (recency-list refinement + sortedness invariant by induction) + differential correspondence incl. raw key order", "3/C11"),
  "C01": ("Refinement theorem: for every history (any length, instants, commands, purge passes anywhere) within capacity the Gallina image of "
          "Memory returns exactly the results of the ideal TTL map; corollaries for the deadline instant, read-your-write and purge-insensitivity. "
          "The image is compared with the real Memory / Cache('mem://') (results and raw key order after every command) under a virtual clock on every run.",
